@@ -464,7 +464,7 @@ def proved_elsewhere():
             continue
         for l in open(os.path.join(VERIF, 'units', u)):
             p = l.split()
-            if len(p) >= 3 and p[0] == 'prove':
+            if len(p) >= 3 and p[0] in ('prove', 'prove?', 'prove-overlay'):
                 proved.add('%s::%s' % (p[1], p[2]))
     return proved
 
